@@ -866,7 +866,8 @@ fn main() {
     let thorough = args.tier == "thorough";
     let cases: Vec<Case> = match &args.replay {
         // A violation found by a burst case is the outcome of a race (submit vs. teardown): one
-        // re-execution reproduces it only rarely.  C10_REPLAY_REPEAT=<k> re-executes every burst case of a
+        // re-execution reproduces it only rarely.  C10_REPLAY_REPEAT=<k> (with VERIF_DEV=1 under ./check, which strips
+        // C<nn>_ variables otherwise) re-executes every burst case of a
         // replay k times (one output line each); default 1, so the corpus run of a check is unchanged.
         Some(p) => {
             let k: usize = std::env::var("C10_REPLAY_REPEAT").ok().and_then(|s| s.parse().ok()).unwrap_or(1).clamp(1, 1000);
